@@ -8,6 +8,10 @@ from pyvc.contract import Contract, T
 from pyvc.speclib import implies, iff
 from ak import conn_http, mcaller_http
 
+BAuthAdapter = conn_http.BAuthConn.Adapter
+ClientAuthAdapter = conn_http.ClientAuthConn.Adapter
+TokenAuthAdapter = conn_http.TokenAuthConn.Adapter
+
 PROP = 'C17'
 M = 'ak.conn_http'
 MM = 'ak.mcaller_http'
@@ -181,6 +185,48 @@ CONTRACTS = [
              ensures={'appended': "same_objects(self.adapters, chain_of(old(self.adapters), [adapter]))",
                       'impl_kept': "self.conn_impl is old(self.conn_impl)"},
              modifies=['self.adapters', 'self.descr'], raises={}),
+    # the three authenticated connections: one adapter of the right kind, carrying the credentials given, put in FRONT of the
+    # chain inherited from the wrapped connection; the wrapped connection is left as it was
+    Contract(M, 'BAuthConn.__init__', prop=PROP, spec_globals=G, level='top',
+             params={'self': T.obj('ak.conn_http:BAuthConn'), 'conn_data': PARENTS, 'login': T.str, 'password': T.str},
+             ensures={
+                 'adapter': "isinstance(self.adapters[0], BAuthAdapter) and "
+                            "self.adapters[0].bauth_header == b'Basic ' + b64_text(login + ':' + password)",
+                 'chain': "same_objects(self.adapters[1:], old(conn_data.adapters)) and len(self.own_adapters) == 1 "
+                          "and self.own_adapters[0] is self.adapters[0]",
+                 'shared_impl': "self.conn_impl is conn_data.conn_impl and self.parent_conn is conn_data",
+                 'parent_untouched': "same_objects(conn_data.adapters, old(conn_data.adapters)) and "
+                                     "conn_data.conn_impl is old(conn_data.conn_impl) and self.adapters is not conn_data.adapters",
+             },
+             raises={}, max_paths=2000),
+    Contract(M, 'ClientAuthConn.__init__', prop=PROP, spec_globals=G, level='top',
+             params={'self': T.obj('ak.conn_http:ClientAuthConn'), 'conn_data': PARENTS, 'client_name': T.str,
+                     'client_id': T.str, 'client_secret': T.str},
+             ensures={
+                 'adapter': "isinstance(self.adapters[0], ClientAuthAdapter) and "
+                            "self.adapters[0].bauth_header == b'Basic ' + b64_text(client_id + ':' + client_secret)",
+                 'chain': "same_objects(self.adapters[1:], old(conn_data.adapters)) and len(self.own_adapters) == 1 "
+                          "and self.own_adapters[0] is self.adapters[0]",
+                 'shared_impl': "self.conn_impl is conn_data.conn_impl and self.parent_conn is conn_data",
+                 'parent_untouched': "same_objects(conn_data.adapters, old(conn_data.adapters)) and "
+                                     "conn_data.conn_impl is old(conn_data.conn_impl) and self.adapters is not conn_data.adapters",
+             },
+             raises={}, max_paths=2000),
+    Contract(M, 'TokenAuthConn.__init__', prop=PROP, spec_globals=G, level='top',
+             params={'self': T.obj('ak.conn_http:TokenAuthConn'), 'conn_data': PARENTS, 'token': T.str,
+                     'token_descr': T.one_of(T.none, T.str)},
+             ensures={
+                 'adapter': "isinstance(self.adapters[0], TokenAuthAdapter) and self.adapters[0].header == 'Bearer ' + token",
+                 'chain': "same_objects(self.adapters[1:], old(conn_data.adapters)) and len(self.own_adapters) == 1 "
+                          "and self.own_adapters[0] is self.adapters[0]",
+                 'shared_impl': "self.conn_impl is conn_data.conn_impl and self.parent_conn is conn_data",
+                 'parent_untouched': "same_objects(conn_data.adapters, old(conn_data.adapters)) and "
+                                     "conn_data.conn_impl is old(conn_data.conn_impl) and self.adapters is not conn_data.adapters",
+             },
+             raises={}, max_paths=2000),
+    Contract(M, 'RequestAdapterAddPathPrefix.__init__', prop=PROP, spec_globals=G, level='sup',
+             params={'self': T.obj('ak.conn_http:RequestAdapterAddPathPrefix'), 'prefix': T.str},
+             ensures={'prefix_stored': "self.prefix == prefix"}, modifies=['self.prefix'], raises={}),
     Contract(MM, 'MCallerHttp.clone', prop=PROP, spec_globals=G, level='top',
              params={'self': T.obj('ak.mcaller_http:MCallerHttp', http_conn=PARENTS, _mc_conns_by_prefix=T.dict({})),
                      'http_conn_adapters': T.one_of(T.none, MARK(), T.list(), T.list(MARK()), T.list(PREFIX(), MARK()),
@@ -320,7 +366,8 @@ def auth_headers(adapters):
     return out
 
 
-BOUNDED_SYMBOLIC = {'_HttpConnImpl.do_request/assembly': 2, '_HttpConnImpl.do_request/response': 3}
+BOUNDED_SYMBOLIC = {'_HttpConnImpl.do_request/assembly': 2, '_HttpConnImpl.do_request/response': 3,
+                    'BAuthConn.__init__': 2, 'ClientAuthConn.__init__': 2, 'TokenAuthConn.__init__': 2}     # length of the inherited chain
 
 USES = {('_HttpConnBase.' + v): ['_HttpConnImpl.do_request/abstract'] for v in ('get', 'post', 'put', 'delete', 'patch')}
 
@@ -409,6 +456,13 @@ def lib_models():
 
 
 CANARIES = [
+    {'name': 'bauth_conn_swaps_credentials', 'module': M, 'function': 'BAuthConn.__init__',
+     'old': 'super().__init__(self.Adapter(login, password), conn_data)',
+     'new': 'super().__init__(self.Adapter(password, login), conn_data)',
+     'expect': 'C17.BAuthConn.__init__.adapter'},
+    {'name': 'token_conn_drops_inherited_chain', 'module': M, 'function': 'TokenAuthConn.__init__',
+     'old': '            conn_data)', 'new': '            conn_data.conn_impl)',
+     'expect': 'C17.TokenAuthConn.__init__.chain'},
     {'name': 'derived_aliases_parent_list', 'module': M, 'function': '_HttpConnBase.__init__',
      'old': 'self.adapters = self.own_adapters + self.parent_conn.adapters',
      'new': 'self.adapters = (self.own_adapters + self.parent_conn.adapters) if self.own_adapters else self.parent_conn.adapters',
